@@ -38,7 +38,8 @@ RULE = ("streaming: 1-3 column streams of 5w-14w samples, base distribution inte
         "set_reference, explicit set_reference calls mid-history (also right after a drift); np.random.seed(seed_of(case, step)) before "
         "every call. quantile: np.quantile(list, 1-alpha, 'nearest') on lists of 1-40 values incl. ranks exactly on .5 and duplicates, "
         "and ordered alpha pairs. Non-trivial: the divergence crossed the bound downwards after having been above it (streaming), "
-        "or a drift occurred; distinct by content.")
+        "or a drift occurred; distinct by content."
+        " Also: ndarray or single-dtype DataFrame inputs, overwritten in place after the call in a third of the cases; streams whose first sample is a list of Python ints.")
 SHARD = 4
 
 
